@@ -124,6 +124,10 @@ let check (case : Sexp.t) : unit =
         let ok1 = okw && (if n <= 6 then both_equiv ~id ~tag:"argmax" n th (argmax_spec nn) (argmax nn)
                           else (bump "argmax_model_only"; equiv_check ~id ~tag:"argmax-model" n th (argmax nn))) in
         let ok2 = def_points ~id (fun x -> Some [qnat (argmax_def x)]) (pts_of pts) in
+        (* mirror: the stack loop as coded (ArgmaxLoop.v), 2^n pops suffice *)
+        (match argmax_loop nn (nat_of_int (1 lsl n)) with
+         | Some b when ptree_eq th (to_ptree b) -> bump "argmax_loop_agree"
+         | _ -> bump "mirror_mismatch"; result id "MIRROR" "argmax-loop" "tree differs from the one the modelled stack loop builds");
         if ok1 && ok2 then result id "OK" "argmax" ""))
   | List [Atom "case"; Atom id; Atom "class"; n; c; Atom oc; st; pts] ->
     let n = int_of n and c = int_of c in let nn = nat_of_int n and nc = nat_of_int c in
